@@ -29,7 +29,7 @@ RULE = ("case = configuration (limit 1..4, expiration none/0/2/3/5/10, sync|asyn
         "instant of an earlier product' and one tick past it; every returned value is tagged with the arguments the "
         "wrapped function received and its invocation counter, live values are counted through weak references. "
         "quick: directed corpus + all histories of length<=4 over {3 ==-equal keys, advance} for 24 configurations "
-        "+ 3000 random; thorough: length<=6 (and length<=4 with raising calls) + 200000 random. "
+        "+ 3000 random; thorough: length<=6 (and length<=4 with raising calls) + 320000 random. "
         "non-trivial = at least one call answered from the cache AND at least one key invoked twice (expired, evicted "
         "or failed before); distinct = by case text")
 TRUSTED = ["functools._make_key(typed=True) equality as modelled by structural equality of Haiway.Cache.Key",
@@ -45,6 +45,21 @@ ASSUMPTIONS = ["sequential histories (each call completes before the next; concu
 VARIANTS = ("sf", "sm", "af", "am")
 ATOM = re.compile(r"^(i-?\d+|f-?\d+|b[01]|s[A-Za-z0-9_]*|n)$")
 NAME = re.compile(r"^[a-z][a-z0-9_]*$")
+
+
+
+def setup() -> None:
+    """Local workaround (reported): harness/vloop.py freezes `time.monotonic` process-wide, and
+    `multiprocessing.connection.wait(…, timeout=0.0)` then never reaches its deadline – the Pool used by
+    core.run_real_many in the thorough tier spins and never terminates.  multiprocessing gets the real clock."""
+    import multiprocessing.connection as mpc
+    import multiprocessing.queues as mpq
+    import time
+    import types
+
+    shim = types.SimpleNamespace(monotonic=vloop.real_monotonic, sleep=vloop._REAL_SLEEP, time=time.time)
+    mpc.time = shim
+    mpq.time = shim
 
 
 # ------------------------------------------------------------------------------------------------
@@ -527,7 +542,7 @@ def generate(rng, tier):
         n = 3000
     else:
         yield from exhaustive(6, 4)
-        n = 200000
+        n = 320000
     for _ in range(n):
         yield random_case(rng)
 
